@@ -238,8 +238,9 @@ class PathEval:
     their last assignment on the path; writes through projections are remembered per place tree
     and forgotten at calls that receive a mutable reference."""
 
-    def __init__(self, f, path, inliner=None):
+    def __init__(self, f, path, inliner=None, keep_mem=None):
         self.f = f
+        self.keep_mem = keep_mem   # predicate on callee keys whose calls leave remembered writes intact
         self.env = {}
         self.mem = {}
         self.conds = []   # (discr tree, value or ('not', values...), block)
@@ -335,7 +336,8 @@ class PathEval:
             if any(a[0] == "&" for a in args) or any("&mut" in (operand_ty(self.f, a) or "") for a in t["args"]):
                 # memory reachable through a mutable reference may have changed
                 if any("&mut" in (operand_ty(self.f, a) or "") for a in t["args"]):
-                    self.mem = {}
+                    if not (self.keep_mem and c.get("key") and self.keep_mem(c["key"])):
+                        self.mem = {}
             self.assign(t["dest"], tree, b)
         elif t["k"] == "switch" and nxt is not None:
             d = self.operand(t["discr"])
